@@ -53,8 +53,8 @@ define("C02", "Properties/C02.v", ["C02_inst.v"], [("reader", [])],
 define("C03", "Properties/C03.v", ["C06_inst.v"], [("msg", [])],
        "Theorems: shift-and-mask extraction = bit slice of the payload (all offsets/widths); the model's field step equals the bit-list specification for every data type (two's complement, sign-magnitude, unsigned, character, scaled by resolution) under the indexed name; trailing bytes change nothing; (encoder round trip: see evidence.obligation_list). Model tied to RTCMMessage by correspondence on builder-made payloads of all 152 identities with bit-exact floats; implementation also compared directly with an independent encoder (values, single-field change, trailing bytes).",
        "independent encoder over all identities x value modes (random, zeros, ones, sign bit) x counts 0..3 and maximal")
-define("C04", "Properties/C04.v", ["C06_inst.v"], [("msg", []), ("reader", [])],
-       "Theorems: the constructor never lets a foreign exception escape (all tables, payloads, options); short payloads give the message error; the static parser is total; read() never raises in ignore/log modes and raises only library errors in raise mode; the read loop consumes >= 1 byte per pass so iteration over a finite stream terminates (fuel never exhausted). Exhaustive header sweep (4096 numbers x lengths, 256 sub-types) and arbitrary streams by correspondence + direct search.",
+define("C04", "Properties/C04.v", ["C04_inst.v"], [("msg", []), ("reader", [])],
+       "Theorems: the constructor never lets a foreign exception escape (all tables, payloads, options); short payloads give the message error; the static parser is total; read() never raises in ignore/log modes and raises only library errors in raise mode; the read loop consumes >= 1 byte per pass so iteration over a finite stream terminates (fuel never exhausted). Per run: tables_total_ok T = true, hence (construct_total) for the working tree's tables every payload yields a message or a library error -- the model has no Unmodelled answer left. Exhaustive header sweep (4096 numbers x lengths, 256 sub-types) and arbitrary streams by correspondence + direct search.",
        "all 4096 message numbers x lengths 2..4(8), 256 sub-types, short payloads, mutations/truncations of builder payloads; arbitrary / hostile streams in 3 modes with and without faults",
        ["Unmodelled outcomes of the model (table shapes outside the mirror) are excluded by the per-run layout well-formedness theorem and flagged by the correspondence"])
 define("C05", "Properties/C05.v", ["C02_inst.v"], [("reader", [])],
@@ -81,8 +81,8 @@ define("C12", "Properties/C12.v", [], [("sock", [])],
        "Theorems: for every well-formed chunked body, decoding oracle and placement of receive boundaries (also reads interleaved with receives, timeouts anywhere) the delivered bytes are the concatenation of the decoded chunk bodies.",
        "11+ bodies (binary data with CRLF/hex digits, upper-case sizes, leading zeros, no last-chunk, gzip/zlib/deflate per chunk) x every single cut, sampled/all double cuts, sampled triple cuts, byte-wise",
        ["zlib is an oracle: per-chunk decompression results are recorded from the implementation's zlib"])
-define("C16", "Properties/C16.v", [], [("msg", [])],
-       "Theorem (relational induction over the decoder): for all tables, payloads and option values the two constructions have the same outcome, same names in the same order, equal values except at attributes written by the derived cell-signal field; only 'is the option 2' matters.",
+define("C16", "Properties/C16.v", ["C04_inst.v"], [("msg", [])],
+       "Theorem (relational induction over the decoder): for all tables, payloads and option values the two constructions have the same outcome, same names in the same order, equal values except at attributes written by the derived cell-signal field; only 'is the option 2' matters; non-MSM messages are unaffected (per run: the cell-signal field occurs only in MSM layouts).",
        "MSM payloads (random / reserved / full masks) and 15..40 non-MSM types x label options 0,1,2,3")
 define("C17", "Properties/C17.v", ["C02_inst.v"], [("reader", [])],
        "Theorems: validate off = decode as with the right checksum; the bytes taken per loop pass and the frame cut are independent of validate/parsed/labelmsm; parsed=False never yields a parsed object and yields frame-shaped slices.",
